@@ -734,6 +734,8 @@ func Span(dst []float64, l, u float64) []float64 {
 	for i := range dst {
 		dst[i] = l + step*float64(i)
 	}
+	// Make sure the final element is exactly u despite rounding.
+	dst[len(dst)-1] = u
 	return dst
 }
 
